@@ -19,8 +19,9 @@ def build_or_none(tree):
     return p, rx
 
 
-def subject_texts(tree, tseed, extra=(), limit=8):
-    """A few longer, multi-line texts assembled from the tree's targeted texts."""
+def subject_texts(tree, tseed, extra=(), limit=8, big=0):
+    """A few longer, multi-line texts assembled from the tree's targeted texts. big > 0 adds one text of about that many
+    pieces (hundreds of matches, tens of kilobytes): counts, buffers and indices that small texts never reach."""
     rng = random.Random(tseed)
     ws = dsl.texts(tree, tseed, limit=16, maxlen=12)
     out = []
@@ -32,6 +33,9 @@ def subject_texts(tree, tseed, extra=(), limit=8):
         out.append(sep.join(parts))
     out.extend(ws[:4])
     out.extend(extra)
+    if big and dsl.unbounded_depth(tree) < 2:
+        seps2 = ['\n', ' ', 'x', '-']
+        out.append(''.join(rng.choice(ws) + rng.choice(seps2) for _ in range(big)))
     out.append('')
     seen, res = set(), []
     for t in out:
